@@ -284,6 +284,36 @@ Fixpoint gap_ops (ops : list op) : bool :=
   end.
 Definition travel_gap_b (x : state) : bool := forallb (fun jb => gap_ops (j_ops jb)) (s_jobs x).
 
+(* C09 over whole runs, on the records alone: two DONE operations p, o of one machine, p started strictly before o
+   and no other started operation of that machine started in between (ties excluded): o starts no earlier than
+   end(p) + matrix[(tool p, tool o)], for a deterministic matrix entry *)
+Definition all_recs (x : state) : list ((nat * nat) * op) :=
+  flat_map (fun p => map (fun q => ((fst p, fst q), snd q)) (indexed O (j_ops (snd p)))) (indexed O (s_jobs x)).
+Definition cref_eqb (a b : nat * nat) : bool := Nat.eqb (fst a) (fst b) && Nat.eqb (snd a) (snd b).
+Definition started_on (m : nat) (r : (nat * nat) * op) : bool :=
+  negb (is_ostate OIdle (snd r)) && Nat.eqb (o_mach (snd r)) m.
+Definition setup_entry (m a : nat) (c : nat * nat) : option Z :=
+  match nth_error (i_machs i) m, get_opcfg i (fst c) (snd c) with
+  | Some mc, Ok oc => match setup_lookup (mc_setup mc) a (oc_tool oc) with Some (Det sd) => Some sd | _ => None end
+  | _, _ => None end.
+Definition between_b (s1 s2 : Z) (q : (nat * nat) * op) : bool :=
+  match o_start (snd q) with Time sq => (s1 <=? sq) && (sq <=? s2) | NoTime => true end.
+Definition setup_pair_b (rs : list ((nat * nat) * op)) (r1 r2 : (nat * nat) * op) : bool :=
+  let m := o_mach (snd r2) in
+  if is_ostate ODone (snd r1) && is_ostate ODone (snd r2) && Nat.eqb (o_mach (snd r1)) m && negb (cref_eqb (fst r1) (fst r2)) then
+    match o_start (snd r1), o_end (snd r1), o_start (snd r2) with
+    | Time s1, Time e1, Time s2 =>
+        if (s1 <? s2) && negb (existsb (fun q => started_on m q && negb (cref_eqb (fst q) (fst r1)) && negb (cref_eqb (fst q) (fst r2))
+                                                && between_b s1 s2 q) rs)
+        then match get_opcfg i (fst (fst r1)) (snd (fst r1)) with
+             | Ok oc1 => match setup_entry m (oc_tool oc1) (fst r2) with Some sd => e1 + sd <=? s2 | None => true end
+             | Err _ => true end
+        else true
+    | _, _, _ => false end
+  else true.
+Definition setup_gap_b (x : state) : bool :=
+  let rs := all_recs x in forallb (fun r2 => forallb (fun r1 => setup_pair_b rs r1 r2) rs) rs.
+
 (* no AGV waits on a TimeDependency (hypothesis on the initial state of the theorems of SMP/ProvBatch.v; an
    invariant of instances whose machine post-buffers are unordered) *)
 Definition nodep_b (x : state) : bool :=
@@ -293,8 +323,8 @@ Definition nodep_b (x : state) : bool :=
 Definition clause_vector (x : state) : list bool :=
   [ placement_b x; loc_b x; mach_hold_b x; agv_hold_b x; claims_b x; capacity_b x; flags_b x;
     feasible_b x; no_overdue_b x; past_b x; busy_op_b x; proc_inner_b x; output_done_b x;
-    outages_b x; outage_nonneg_b x; agv_phase_b x; idle_unclaimed_b x; sto_ok_b x; fresh_b x; agv_load_b x; fresh2_b x; nodep_b x; durations_b x; travel_gap_b x ].
+    outages_b x; outage_nonneg_b x; agv_phase_b x; idle_unclaimed_b x; sto_ok_b x; fresh_b x; agv_load_b x; fresh2_b x; nodep_b x; durations_b x; travel_gap_b x; setup_gap_b x ].
 
 End WithInst.
 
-Definition clause_names : list nat := seq0 24.
+Definition clause_names : list nat := seq0 25.
